@@ -815,25 +815,110 @@ Proof.
     + unfold finished. cbn [pqg p_err p_syms p_refs p_lines p_meta]. repeat split. rewrite essential_line by reflexivity. reflexivity.
 Qed.
 
+(* ---------- pseudo-op lines with a label section: EQU ---------- *)
+Definition ldir_sline (labs : list ltok) (kw : text) (e : list token) (cmt : option text) : sline :=
+  mkSL 0 0 linePseudoOp (lnames labs) kw [] e [] [] (match cmt with Some c => c | None => [] end) 0.
+Definition ldir_ok (labs : list ltok) (kw : text) (e : list token) : Prop :=
+  (match labs with [] | LName _ :: _ => True | _ => False end) /\ Forall label_name (lnames labs) /\ dir_ok kw e.
+
+Lemma ldir_prefix mt sy rf labs kw e t' r L C cur lines : ldir_ok labs kw e -> NoDup (sy ++ lnames labs) ->
+  exists n L1, forall f,
+  parse_run (n + f) PLine (pq mt sy rf (map ltok_tok labs ++ mkT tokText kw :: e ++ t' :: r) L C cur lines) =
+  parse_run f PPseudoExpr (pq mt (sy ++ lnames labs) rf (e ++ t' :: r) L1 C
+                              (after_kw (add_labels (empty_sline L) (lnames labs)) (mkT tokText kw)) lines).
+Proof.
+  intros [Hhd [Hnm [Hkw [Hps [Hend [He Hne]]]]]] Hnd.
+  set (o := mkT tokText kw) in *.
+  destruct (lab_phase mt rf o (e ++ t' :: r) C lines Hkw (length labs) labs (le_n _) Hnm sy Hnd L (empty_sline L)) as [[n1 [L1 H1]] _].
+  unfold op_state in H1. rewrite Hps in H1.
+  exists (S n1 + 1)%nat, L1. intros f. replace (S n1 + 1 + f)%nat with (S (n1 + S f)) by lia.
+  rewrite parse_run_S.
+  assert (Hs : parse_step PLine (pq mt sy rf (map ltok_tok labs ++ o :: e ++ t' :: r) L C cur lines) =
+               (pq mt sy rf (map ltok_tok labs ++ o :: e ++ t' :: r) L C (empty_sline L) lines, Some PLabels)).
+  { destruct labs as [|[n| |] t]; try (destruct Hhd; fail); cbn [map app ltok_tok]; apply q_line_text; reflexivity. }
+  rewrite Hs, H1. destruct e as [|e0 e']; [congruence|]. inversion He as [|x y He0 _]; subst. cbn [app].
+  rewrite parse_run_S, q_pseudo_op_expr by (try discriminate; exact He0).
+  unfold is_end, o. cbn [t_val orb]. rewrite Hend. reflexivity.
+Qed.
+
+Lemma ldir_run_more mt sy rf labs kw e cmt k t0 r0 L C cur lines : ldir_ok labs kw e -> NoDup (sy ++ lnames labs) -> t_typ t0 <> tokNewline ->
+  exists n L' cur' lines',
+    (forall f, parse_run (n + f) PLine (pq mt sy rf (map ltok_tok labs ++ mkT tokText kw :: e ++ cmt_toks cmt ++ repeat nl_tok (S k) ++ t0 :: r0) L C cur lines) =
+               parse_run f PLine (pq mt (sy ++ lnames labs) (add_refs rf e) (t0 :: r0) L' C cur' lines')) /\
+    essential lines' = essential lines ++ [ldir_sline labs kw e cmt].
+Proof.
+  intros Hok Hnd Ht0. pose proof Hok as [_ [_ [_ [_ [_ [He _]]]]]].
+  set (c0 := set_a (after_kw (add_labels (empty_sline L) (lnames labs)) (mkT tokText kw)) e).
+  destruct cmt as [c|]; cbn [cmt_toks app].
+  - destruct (ldir_prefix mt sy rf labs kw e (mkT tokComment c) (repeat nl_tok (S k) ++ t0 :: r0) L C cur lines Hok Hnd) as [n1 [L1 H1]].
+    destruct (skip_nls mt (sy ++ lnames labs) (add_refs rf e) k t0 r0 (L1 + 1)%Z C (add_newline (set_comment c0 c)) (lines ++ [add_newline (set_comment c0 c)]) Ht0)
+      as [n2 [L2 [cur2 [lines2 [H2 E2]]]]].
+    exists (n1 + (2 + n2))%nat, L2, cur2, lines2. split.
+    + intros f. replace (n1 + (2 + n2) + f)%nat with (n1 + S (S (n2 + f)))%nat by lia. rewrite H1.
+      rewrite parse_run_S, q_pseudo_expr by (try assumption; reflexivity). cbn [t_typ].
+      rewrite parse_run_S. cbn [repeat app].
+      destruct (repeat nl_tok k ++ t0 :: r0) as [|x y] eqn:Er; [destruct k; discriminate Er|].
+      rewrite q_comment_nl. apply H2.
+    + rewrite E2. rewrite essential_line by reflexivity. reflexivity.
+  - destruct (ldir_prefix mt sy rf labs kw e nl_tok (repeat nl_tok k ++ t0 :: r0) L C cur lines Hok Hnd) as [n1 [L1 H1]].
+    destruct (skip_nls mt (sy ++ lnames labs) (add_refs rf e) k t0 r0 (L1 + 1)%Z C (add_newline c0) (lines ++ [add_newline c0]) Ht0)
+      as [n2 [L2 [cur2 [lines2 [H2 E2]]]]].
+    exists (n1 + (1 + n2))%nat, L2, cur2, lines2. split.
+    + intros f. replace (n1 + (1 + n2) + f)%nat with (n1 + S (n2 + f))%nat by lia. cbn [repeat app]. rewrite H1.
+      rewrite parse_run_S, q_pseudo_expr by (try assumption; reflexivity). cbn [t_typ nl_tok].
+      destruct (repeat nl_tok k ++ t0 :: r0) as [|x y] eqn:Er; [destruct k; discriminate Er|].
+      rewrite pnext_pq. cbn [t_typ]. apply H2.
+    + rewrite E2. rewrite essential_line by reflexivity. reflexivity.
+Qed.
+
+Lemma ldir_run_last mt sy rf labs kw e cmt L C cur lines : ldir_ok labs kw e -> NoDup (sy ++ lnames labs) ->
+  exists n pf,
+    (forall f, parse_run (n + f) PLine (pq mt sy rf (map ltok_tok labs ++ mkT tokText kw :: e ++ cmt_toks cmt ++ [tEOF]) L C cur lines) = Some pf) /\
+    finished pf (sy ++ lnames labs) (add_refs rf e) (essential lines ++ [ldir_sline labs kw e cmt]) mt.
+Proof.
+  intros Hok Hnd. pose proof Hok as [_ [_ [_ [_ [_ [He _]]]]]].
+  destruct cmt as [c|]; cbn [cmt_toks app].
+  - destruct (ldir_prefix mt sy rf labs kw e (mkT tokComment c) [tEOF] L C cur lines Hok Hnd) as [n1 [L1 H1]].
+    eexists (n1 + 2)%nat, _. split.
+    + intros f. replace (n1 + 2 + f)%nat with (n1 + S (S f))%nat by lia. rewrite H1.
+      rewrite parse_run_S, q_pseudo_expr by (try assumption; reflexivity). cbn [t_typ].
+      rewrite parse_run_S, q_comment_eof. reflexivity.
+    + unfold finished. cbn [pqg p_err p_syms p_refs p_lines p_meta]. repeat split. rewrite essential_line by reflexivity. reflexivity.
+  - destruct (ldir_prefix mt sy rf labs kw e tEOF [] L C cur lines Hok Hnd) as [n1 [L1 H1]].
+    eexists (n1 + 2)%nat, _. split.
+    + intros f. replace (n1 + 2 + f)%nat with (n1 + S (S f))%nat by lia. rewrite H1.
+      rewrite parse_run_S, q_pseudo_expr by (try assumption; reflexivity). cbn [t_typ tEOF].
+      rewrite parse_run_S, q_line_eof. reflexivity.
+    + unfold finished. cbn [pqg p_err p_syms p_refs p_lines p_meta]. repeat split. rewrite essential_line by reflexivity. reflexivity.
+Qed.
+
 (* ---------- documents: lines, each followed by its line ends ---------- *)
-Inductive lelem := LInstr (i : tline) | LComment (c : text) | LDir (kw : text) (e : list token) (cmt : option text).
+Inductive lelem := LInstr (i : tline) | LComment (c : text) | LDir (kw : text) (e : list token) (cmt : option text)
+| LEqu (labs : list ltok) (kw : text) (e : list token) (cmt : option text).
 Definition lelem_toks (x : lelem) : list token :=
   match x with
   | LInstr i => tline_toks i
   | LComment c => [mkT tokComment c]
   | LDir kw e cmt => mkT tokText kw :: e ++ cmt_toks cmt
+  | LEqu labs kw e cmt => map ltok_tok labs ++ mkT tokText kw :: e ++ cmt_toks cmt
   end.
 Fixpoint body (es : list (lelem * nat)) : list token :=
   match es with [] => [] | (x, k) :: t => lelem_toks x ++ repeat nl_tok k ++ body t end.
 Definition ldoc_toks (lead : nat) (es : list (lelem * nat)) : list token := repeat nl_tok lead ++ body es ++ [tEOF].
 
 Fixpoint dnames (es : list (lelem * nat)) : list text :=
-  match es with [] => [] | (LInstr i, _) :: t => lnames (tl_labs i) ++ dnames t | _ :: t => dnames t end.
+  match es with
+  | [] => []
+  | (LInstr i, _) :: t => lnames (tl_labs i) ++ dnames t
+  | (LEqu labs _ _ _, _) :: t => lnames labs ++ dnames t
+  | _ :: t => dnames t
+  end.
 Fixpoint drefs (rf : list text) (es : list (lelem * nat)) : list text :=
   match es with
   | [] => rf
   | (LInstr i, _) :: t => drefs (refs_after rf i) t
   | (LDir _ e _, _) :: t => drefs (add_refs rf e) t
+  | (LEqu _ _ e _, _) :: t => drefs (add_refs rf e) t
   | _ :: t => drefs rf t
   end.
 Fixpoint elines (C : Z) (es : list (lelem * nat)) : list sline :=
@@ -842,6 +927,7 @@ Fixpoint elines (C : Z) (es : list (lelem * nat)) : list sline :=
   | (LInstr i, _) :: t => tline_sline C i :: elines (C + 1) t
   | (LComment c, _) :: t => comment_sline c :: elines C t
   | (LDir kw e cmt, _) :: t => dir_sline kw e cmt :: elines C t
+  | (LEqu labs kw e cmt, _) :: t => ldir_sline labs kw e cmt :: elines C t
   end.
 Fixpoint dmeta (mt : pmeta) (es : list (lelem * nat)) : pmeta :=
   match es with [] => mt | (LComment c, _) :: t => dmeta (read_metadata mt c) t | _ :: t => dmeta mt t end.
@@ -856,21 +942,26 @@ Fixpoint ends_ok (es : list (lelem * nat)) : Prop :=
   | (_, k) :: t => (1 <= k)%nat /\ ends_ok t
   end.
 Definition lelem_ok (x : lelem) : Prop :=
-  match x with LInstr i => tline_ok i | LComment _ => True | LDir kw e _ => dir_ok kw e end.
+  match x with LInstr i => tline_ok i | LComment _ => True | LDir kw e _ => dir_ok kw e | LEqu labs kw e _ => ldir_ok labs kw e end.
 
 Lemma tline_toks_head i : tline_ok i -> exists t0 r0, tline_toks i = t0 :: r0 /\ t_typ t0 <> tokNewline.
 Proof.
   intros [Hhd _]. unfold tline_toks, tline_head. destruct (tl_labs i) as [|[n| |] t]; try (destruct Hhd; fail); cbn [map app ltok_tok];
     eexists _, _; (split; [reflexivity|discriminate]).
 Qed.
+Lemma lelem_toks_head x rest : lelem_ok x -> exists t1 r1, lelem_toks x ++ rest = t1 :: r1 /\ t_typ t1 <> tokNewline.
+Proof.
+  intros Hx. destruct x as [i|c|kw e cmt|labs kw e cmt]; cbn [lelem_toks].
+  - destruct (tline_toks_head i Hx) as [t1 [r1 [E Hn]]]. rewrite E. cbn [app]. eexists _, _. split; [reflexivity|exact Hn].
+  - cbn [app]. eexists _, _. split; [reflexivity|discriminate].
+  - cbn [app]. eexists _, _. split; [reflexivity|discriminate].
+  - destruct Hx as [Hhd _]. destruct labs as [|[n| |] t]; try (destruct Hhd; fail); cbn [map app ltok_tok]; eexists _, _; (split; [reflexivity|discriminate]).
+Qed.
 Lemma body_head es : Forall (fun xk => lelem_ok (fst xk)) es ->
   exists t0 r0, body es ++ [tEOF] = t0 :: r0 /\ t_typ t0 <> tokNewline.
 Proof.
   intros H. destruct es as [|[x k] t]; [exists tEOF, []; split; [reflexivity|discriminate]|].
-  inversion H as [|a b Hx Ht]; subst. cbn [fst] in Hx. cbn [body]. destruct x as [i|c|kw e cmt].
-  - destruct (tline_toks_head i Hx) as [t0 [r0 [E Hn]]]. cbn [lelem_toks]. rewrite E. cbn [app]. eexists _, _. split; [reflexivity|exact Hn].
-  - cbn [lelem_toks app]. eexists _, _. split; [reflexivity|discriminate].
-  - cbn [lelem_toks app]. eexists _, _. split; [reflexivity|discriminate].
+  inversion H as [|a b Hx Ht]; subst. cbn [fst] in Hx. cbn [body]. rewrite <- app_assoc. apply lelem_toks_head. exact Hx.
 Qed.
 
 Lemma body_cons x k t : body ((x, k) :: t) = lelem_toks x ++ repeat nl_tok k ++ body t.
@@ -899,13 +990,10 @@ Proof.
     assert (Hrest : exists t1 r1, body t ++ t0 :: r0 = t1 :: r1 /\ t_typ t1 <> tokNewline).
     { destruct t as [|[y ky] t']; [exists t0, r0; split; [reflexivity|exact Ht0]|].
       inversion Ht as [|a b Hy _]; subst. cbn [fst] in Hy. rewrite body_cons.
-      destruct y as [i|c|kw e cmt]; cbn [lelem_toks].
-      - destruct (tline_toks_head i Hy) as [t1 [r1 [E Hn]]]. rewrite E. cbn [app]. eexists _, _. split; [reflexivity|exact Hn].
-      - cbn [app]. eexists _, _. split; [reflexivity|discriminate].
-      - cbn [app]. eexists _, _. split; [reflexivity|discriminate]. }
+      rewrite <- app_assoc. apply lelem_toks_head. exact Hy. }
     destruct Hrest as [t1 [r1 [Eb Hn1]]].
     rewrite body_cons. rewrite <- !app_assoc. rewrite Eb.
-    destruct x as [i|c|kw e cmt]; cbn [lelem_toks].
+    destruct x as [i|c|kw e cmt|labs kw e cmt]; cbn [lelem_toks].
     + change (dnames ((LInstr i, S k) :: t)) with (lnames (tl_labs i) ++ dnames t) in *.
       change (drefs rf ((LInstr i, S k) :: t)) with (drefs (refs_after rf i) t).
       change (elines C ((LInstr i, S k) :: t)) with (tline_sline C i :: elines (C + 1) t).
@@ -937,6 +1025,17 @@ Proof.
       destruct (IH Ht Hk2 t0 r0 Ht0 mt sy (add_refs rf e) L' C cur' lines' Hnd) as [n2 [L2 [cur2 [lines2 [H2 E2]]]]].
       exists (n + n2)%nat, L2, cur2, lines2. split.
       * intros f. rewrite <- Nat.add_assoc. cbn [app]. rewrite <- !app_assoc. rewrite H1. rewrite <- Eb. apply H2.
+      * rewrite E2, E1. rewrite <- !app_assoc. reflexivity.
+    + change (dnames ((LEqu labs kw e cmt, S k) :: t)) with (lnames labs ++ dnames t) in *.
+      change (drefs rf ((LEqu labs kw e cmt, S k) :: t)) with (drefs (add_refs rf e) t).
+      change (elines C ((LEqu labs kw e cmt, S k) :: t)) with (ldir_sline labs kw e cmt :: elines C t).
+      change (dmeta mt ((LEqu labs kw e cmt, S k) :: t)) with (dmeta mt t).
+      change (dcount ((LEqu labs kw e cmt, S k) :: t)) with (dcount t).
+      rewrite app_assoc in Hnd.
+      destruct (ldir_run_more mt sy rf labs kw e cmt k t1 r1 L C cur lines Hx (nodup_app_l _ _ _ Hnd) Hn1) as [n [L' [cur' [lines' [H1 E1]]]]].
+      destruct (IH Ht Hk2 t0 r0 Ht0 mt (sy ++ lnames labs) (add_refs rf e) L' C cur' lines' Hnd) as [n2 [L2 [cur2 [lines2 [H2 E2]]]]].
+      exists (n + n2)%nat, L2, cur2, lines2. split.
+      * intros f. rewrite <- Nat.add_assoc. rewrite <- !app_assoc. cbn [app]. rewrite <- !app_assoc. rewrite H1. rewrite <- Eb. rewrite H2. rewrite <- app_assoc. reflexivity.
       * rewrite E2, E1. rewrite <- !app_assoc. reflexivity.
 Qed.
 
@@ -975,21 +1074,19 @@ Proof.
     { clear. induction es0 as [|[y ky] t IH]; intros mt0; [reflexivity|]. cbn [app]. destruct y; cbn [dmeta]; apply IH. }
     rewrite Eb, En, Er, El, Em. rewrite En in Hnd. rewrite app_assoc in Hnd.
     assert (Hhead : exists t1 r1, (lelem_toks x ++ repeat nl_tok k) ++ [tEOF] = t1 :: r1 /\ t_typ t1 <> tokNewline).
-    { destruct x as [i|c|kw e cmt]; cbn [lelem_toks].
-      - destruct (tline_toks_head i Hx) as [t1 [r1 [E Hn]]]. rewrite E. cbn [app]. eexists _, _. split; [reflexivity|exact Hn].
-      - cbn [app]. eexists _, _. split; [reflexivity|discriminate].
-      - cbn [app]. eexists _, _. split; [reflexivity|discriminate]. }
+    { rewrite <- app_assoc. apply lelem_toks_head. exact Hx. }
     destruct Hhead as [t1 [r1 [Eh Hn1]]].
     destruct (doc_run_more es0 Hok0 Hk0 t1 r1 Hn1 mt sy rf L C cur lines (nodup_app_l _ _ _ Hnd)) as [n1 [L1 [cur1 [lines1 [H1 E1]]]]].
     set (mt1 := dmeta mt es0) in *. set (sy1 := sy ++ dnames es0) in *. set (rf1 := drefs rf es0) in *. set (C1 := (C + dcount es0)%Z) in *.
     assert (Hlast : exists n2 pf, (forall f, parse_run (n2 + f) PLine (pq mt1 sy1 rf1 (t1 :: r1) L1 C1 cur1 lines1) = Some pf) /\
                       finished pf (sy1 ++ dnames [(x, k)]) (drefs rf1 [(x, k)]) (essential lines1 ++ elines C1 [(x, k)]) (dmeta mt1 [(x, k)])).
     { rewrite <- Eh. destruct k as [|k].
-      - cbn [repeat]. rewrite app_nil_r. destruct x as [i|c|kw e cmt]; cbn [lelem_toks dnames drefs elines dmeta].
+      - cbn [repeat]. rewrite app_nil_r. destruct x as [i|c|kw e cmt|labs kw e cmt]; cbn [lelem_toks dnames drefs elines dmeta].
         + rewrite app_nil_r. cbn [dnames] in Hnd. rewrite app_nil_r in Hnd. apply tline_run_last; assumption.
         + rewrite app_nil_r. cbn [app]. apply comment_run_last.
         + rewrite app_nil_r. cbn [app]. rewrite <- app_assoc. apply dir_run_last. exact Hx.
-      - destruct x as [i|c|kw e cmt]; cbn [lelem_toks dnames drefs elines dmeta].
+        + cbn [dnames] in Hnd. rewrite app_nil_r in Hnd. rewrite app_nil_r. rewrite <- !app_assoc. cbn [app]. rewrite <- !app_assoc. apply ldir_run_last; assumption.
+      - destruct x as [i|c|kw e cmt|labs kw e cmt]; cbn [lelem_toks dnames drefs elines dmeta].
         + cbn [dnames] in Hnd. rewrite app_nil_r in Hnd |- *.
           destruct (tline_run_more mt1 sy1 rf1 i k tEOF [] L1 C1 cur1 lines1 Hx Hnd ltac:(discriminate)) as [n [L' [cur' [lines' [H2 E2]]]]].
           eexists (n + 1)%nat, _. split.
@@ -1006,6 +1103,12 @@ Proof.
           destruct (dir_run_more mt1 sy1 rf1 kw e cmt k tEOF [] L1 C1 cur1 lines1 Hx ltac:(discriminate)) as [n [L' [cur' [lines' [H2 E2]]]]].
           eexists (n + 1)%nat, _. split.
           * intros f. replace (n + 1 + f)%nat with (n + S f)%nat by lia. cbn [app]. rewrite <- ?app_assoc. rewrite H2.
+            rewrite parse_run_S, q_line_eof. reflexivity.
+          * unfold finished. cbn [pqg p_err p_syms p_refs p_lines p_meta]. repeat split. exact E2.
+        + cbn [dnames] in Hnd. rewrite app_nil_r in Hnd |- *.
+          destruct (ldir_run_more mt1 sy1 rf1 labs kw e cmt k tEOF [] L1 C1 cur1 lines1 Hx Hnd ltac:(discriminate)) as [n [L' [cur' [lines' [H2 E2]]]]].
+          eexists (n + 1)%nat, _. split.
+          * intros f. replace (n + 1 + f)%nat with (n + S f)%nat by lia. rewrite <- ?app_assoc. cbn [app]. rewrite <- ?app_assoc. rewrite H2.
             rewrite parse_run_S, q_line_eof. reflexivity.
           * unfold finished. cbn [pqg p_err p_syms p_refs p_lines p_meta]. repeat split. exact E2. }
     destruct Hlast as [n2 [pf [H2 F2]]].
@@ -1164,10 +1267,13 @@ Lemma body_nonterm es : Forall (fun xk => lelem_ok (fst xk)) es -> Forall nonter
 Proof.
   induction es as [|[x k] t IH]; intros H; [constructor|]. inversion H as [|a b Hx Ht]; subst. cbn [fst] in Hx.
   cbn [body]. apply Forall_app. split; [|apply Forall_app; split; [apply repeat_nl_nonterm|apply IH; exact Ht]].
-  destruct x as [i|c|kw e cmt]; [apply tline_toks_nonterm; exact Hx|repeat constructor|].
-  destruct Hx as [_ [_ [_ [He _]]]]. cbn [lelem_toks]. constructor; [reflexivity|]. apply Forall_app. split.
-  - eapply Forall_impl; [apply term_nonterm|exact He].
-  - destruct cmt; repeat constructor.
+  destruct x as [i|c|kw e cmt|labs kw e cmt]; [apply tline_toks_nonterm; exact Hx|repeat constructor| |].
+  - destruct Hx as [_ [_ [_ [He _]]]]. cbn [lelem_toks]. constructor; [reflexivity|]. apply Forall_app. split.
+    + eapply Forall_impl; [apply term_nonterm|exact He].
+    + destruct cmt; repeat constructor.
+  - destruct Hx as [_ [_ [_ [_ [_ [He _]]]]]]. cbn [lelem_toks]. apply Forall_app. split.
+    + clear. induction labs as [|[n| |] tl0 IHl]; cbn [map]; [constructor| | |]; (constructor; [reflexivity|exact IHl]).
+    + constructor; [reflexivity|]. apply Forall_app. split; [eapply Forall_impl; [apply term_nonterm|exact He]|destruct cmt; repeat constructor].
 Qed.
 Lemma ldoc_closed lead es : Forall (fun xk => lelem_ok (fst xk)) es -> closed_stream (ldoc_toks lead es).
 Proof.
@@ -1225,10 +1331,7 @@ Proof.
   assert (Hhead : exists t1 r1, body es ++ end_toks x ++ [tEOF] = t1 :: r1 /\ t_typ t1 <> tokNewline).
   { destruct es as [|[y ky] t']; [exists t0, r0; split; [exact Ee|exact Hn0]|].
     inversion Hok as [|a b Hy _]; subst. cbn [fst] in Hy. rewrite body_cons.
-    destruct y as [i|c|kw e cmt]; cbn [lelem_toks].
-    - destruct (tline_toks_head i Hy) as [t1 [r1 [E Hn]]]. rewrite E. cbn [app]. eexists _, _. split; [reflexivity|exact Hn].
-    - cbn [app]. eexists _, _. split; [reflexivity|discriminate].
-    - cbn [app]. eexists _, _. split; [reflexivity|discriminate]. }
+    rewrite <- app_assoc. apply lelem_toks_head. exact Hy. }
   destruct Hhead as [t1 [r1 [Eb Hn1]]].
   assert (Ei : p_init (ldoc_end_toks lead es x) = pq (mkPM [] [] []) predefined [] (ldoc_end_toks lead es x) 1 0 (empty_sline 1) []).
   { unfold ldoc_end_toks. rewrite Eb. destruct lead; reflexivity. }
